@@ -146,13 +146,15 @@ func cmdCheck(args []string) int {
 	replayDir := filepath.Join(opt.Verif, "replay", "out", prop)
 	os.RemoveAll(replayDir)
 
-	report := func(fn, obl, status, where, note, model string) {
+	var knownObls []string
+	report := func(fn, obl, status, where, note, model string) bool {
 		full := fn + "#" + obl
 		for i, k := range known {
 			if k.Property == prop && k.Status == "known" && k.Function == fn && k.Obligation == obl {
 				knownHit[i] = true
+				knownObls = append(knownObls, full)
 				outLines = append(outLines, fmt.Sprintf("KNOWN-FINDING: property=%s %s %s", prop, full, k.What))
-				return
+				return true
 			}
 		}
 		violations++
@@ -177,6 +179,7 @@ func cmdCheck(args []string) int {
 			line += " no-failing-input-found"
 		}
 		outLines = append(outLines, line)
+		return false
 	}
 
 	for _, r := range results {
@@ -221,8 +224,11 @@ func cmdCheck(args []string) int {
 				}
 				continue
 			}
+			if report(r.Key, o.Name, o.Status, o.Where, o.Note, o.Model) {
+				total-- // a listed known finding: reported as such, not part of what this run claims as proved
+				continue
+			}
 			failed = append(failed, oblRec{r.Key, o.Name, o.Status, o.Solver, o.Where, o.Note})
-			report(r.Key, o.Name, o.Status, o.Where, o.Note, o.Model)
 		}
 		if n == 0 && len(r.Fatal) == 0 {
 			engineErrs = append(engineErrs, r.Key+": generated zero obligations (vacuous)")
@@ -333,6 +339,7 @@ func cmdCheck(args []string) int {
 		"undecided_subclaims":      pc.Undecided,
 		"unknown_callees":          unknownList,
 		"known_findings_matched":   len(knownHit),
+		"known_finding_obligations": knownObls,
 		"engine_errors":            engineErrs,
 	}
 	ev := map[string]interface{}{
